@@ -33,18 +33,22 @@ def fn_slices(tier):
                        bounds=dict(max_params=1, max_generics=0, max_where=0, max_deps_bounds=1, max_wrappers=1, max_fn_attrs=0, max_param_attrs=0, pat_depth=0),
                        fixed=SIMPLE_SIG + ONE_PARAM + [(r'inputs\[0\]\.ty$', '&'), (r'inputs\[0\]\.ty\.&$', 'impl'), (r'\.lt$', 'None'), (r'\.sig\.output$', '()')]))
     # 3. parameter patterns (C16 C01 C18)
+    sl.append(dict(name='fn/patterns-2params', mode='fn', opts_only=(),
+                   bounds=dict(max_params=2, max_generics=0, max_where=0, max_deps_bounds=1, max_wrappers=1, max_fn_attrs=0, max_param_attrs=0,
+                               pat_depth=1 if big else 0, pat_width=2),
+                   fixed=SIMPLE_SIG + DEPS_IMPL1 + SYNC_UNIT + [(r'inputs\[0\]$', 'typed'), (r'inputs\[0\]\.pat$', 'deps'), (r'inputs\[\d\]\.attrs$', 'len=0')]))
     sl.append(dict(name='fn/patterns', mode='fn', opts_only=('no_deps',),
-                   bounds=dict(max_params=2, max_generics=0, max_where=0, max_deps_bounds=1, max_wrappers=1, max_fn_attrs=0, max_param_attrs=1,
+                   bounds=dict(max_params=2 if big else 1, max_generics=0, max_where=0, max_deps_bounds=1, max_wrappers=1, max_fn_attrs=0, max_param_attrs=1,
                                pat_depth=2 if big else 1, pat_width=2),
                    fixed=SIMPLE_SIG + DEPS_IMPL1 + SYNC_UNIT + [(r'inputs\[0\]$', 'typed'), (r'inputs\[0\]\.pat$', 'deps'), (r'inputs\[0\]\.attrs$', 'len=0')]))
     # 4. parameter / function names as solver strings (C16)
     sl.append(dict(name='fn/symbolic-names', mode='fn', opts_only=(), solver_timeout_ms=20000,
                    bounds=dict(max_params=2, max_generics=0, max_where=0, max_deps_bounds=1, max_wrappers=1, max_fn_attrs=0, max_param_attrs=0,
-                               pat_depth=1, pat_width=2 if big else 1, sym_names=True),
+                               pat_depth=1 if big else 0, pat_width=2 if big else 1, sym_names=True),
                    fixed=SIMPLE_SIG + DEPS_IMPL1 + SYNC_UNIT + [(r'inputs\[0\]$', 'typed'), (r'inputs\[0\]\.pat$', 'ident'), (r'inputs\[\d\]\.attrs$', 'len=0')]))
     # 5. attributes below entrait, async, ?Send, return type (C18 C12 C14)
     sl.append(dict(name='fn/attrs-async', mode='fn', opts_only=('future_send', 'no_deps'),
-                   bounds=dict(max_params=1, max_generics=0, max_where=0, max_deps_bounds=1, max_wrappers=1, max_fn_attrs=2, max_param_attrs=1, pat_depth=0),
+                   bounds=dict(max_params=1, max_generics=0, max_where=0, max_deps_bounds=1, max_wrappers=1, max_fn_attrs=2 if big else 1, max_param_attrs=1, pat_depth=0),
                    fixed=[(r'\.vis$', 'inherited'), (r'attr\.vis$', 'pub'), (r'\.generics\.params$', 'len=0'), (r'\.generics\.where$', 'None'),
                           (r'inputs\[0\]\.pat$', 'deps'), (r'inputs\[[1-9]\]\.pat$', 'ident'), (r'\.sig\.inputs$', 'len=2'), (r'inputs\[0\]$', 'typed'),
                           (r'inputs\[0\]\.attrs$', 'len=0')] + DEPS_IMPL1))
@@ -71,8 +75,8 @@ def mod_slices(tier):
                   (r'\.generics\.where$', 'None'), (r'inputs\[0\]\.pat$', 'deps'), (r'inputs\[[1-9]\]\.pat$', 'ident'), (r'inputs\[\d\]\.attrs$', 'len=0'),
                   (r'\.sig\.output$', '()'), (r'\.lt$', 'None')]
     # module items: which become methods, order, several fns contributing bounds (C08 C01 C04 C02 C13)
-    sl.append(dict(name='mod/items', mode='mod', opts_only=('no_deps',), max_items=3 if big else 2,
-                   bounds=dict(max_params=1, max_generics=1, max_where=0, max_deps_bounds=2, max_wrappers=1, max_fn_attrs=0, max_param_attrs=0, pat_depth=0,
+    sl.append(dict(name='mod/items', mode='mod', opts_only=('no_deps',) if big else (), max_items=3 if big else 2,
+                   bounds=dict(max_params=1, max_generics=1 if big else 0, max_where=0, max_deps_bounds=2, max_wrappers=1, max_fn_attrs=0, max_param_attrs=0, pat_depth=0,
                                deps_kinds=('path:D', 'path:C', 'impl', '&'), vis_alts=('inherited', 'pub', 'pub_crate')),
                    fixed=base_fixed + [(r'items\[\d\]\.attrs$', 'len=0'), (r'\.sig\.async$', 'absent'), (r'\.sig\.inputs$', 'len=2'), (r'inputs\[0\]$', 'typed')]))
     # visibilities (C13 C08)
@@ -82,7 +86,7 @@ def mod_slices(tier):
                    fixed=[f for f in base_fixed if f[0] != r'mod\.vis$'] + [(r'items\[\d\]\.attrs$', 'len=0'), (r'\.sig\.async$', 'absent'), (r'\.sig\.inputs$', 'len=1'), (r'inputs\[0\]$', 'typed'),
                                        (r'inputs\[0\]\.ty$', '&'), (r'inputs\[0\]\.ty\.&$', 'impl'), (r'\.impl$', 'len=1'), (r'\.generics\.params$', 'len=0')]))
     # attributes on the module and on its fns, async, options (C18 C12 C10 C11)
-    sl.append(dict(name='mod/attrs-async-opts', mode='mod', max_items=2,
+    sl.append(dict(name='mod/attrs-async-opts', mode='mod', max_items=2 if big else 1,
                    bounds=dict(max_params=1, max_generics=0, max_where=0, max_deps_bounds=1, max_wrappers=1, max_fn_attrs=1, max_param_attrs=0, pat_depth=0,
                                deps_kinds=('impl', '&', 'path:C'), vis_alts=('inherited', 'pub')),
                    opts_only=('unimock', 'mock_api', 'mockall', 'export', 'future_send'),
@@ -96,26 +100,72 @@ def impl_slices(tier):
     base_fixed = [(r'\.sig\.const$', 'absent'), (r'\.sig\.unsafe$', 'absent'), (r'\.sig\.abi$', 'None'), (r'\.generics\.where$', 'None'),
                   (r'inputs\[0\]\.pat$', 'deps'), (r'inputs\[[1-9]\]\.pat$', 'ident'), (r'inputs\[\d\]\.attrs$', 'len=0'), (r'\.sig\.output$', '()'), (r'\.lt$', 'None')]
     sl.append(dict(name='impl/items', mode='impl', max_items=3 if big else 2,
-                   bounds=dict(max_params=1, max_generics=1, max_where=0, max_deps_bounds=2, max_wrappers=1, max_fn_attrs=1, max_param_attrs=0, pat_depth=0,
+                   bounds=dict(max_params=1, max_generics=1 if big else 0, max_where=0, max_deps_bounds=2 if big else 1, max_wrappers=1, max_fn_attrs=1 if big else 0, max_param_attrs=0, pat_depth=0,
                                deps_kinds=('&',), deps_inner_kinds=('path:D', 'path:C', 'impl'), vis_alts=('inherited', 'pub')),
                    fixed=base_fixed + [(r'impl\.attrs$', 'len=0'), (r'\.sig\.inputs$', 'len=2'), (r'inputs\[0\]$', 'typed')]))
     sl.append(dict(name='impl/attrs-async', mode='impl', max_items=1,
-                   bounds=dict(max_params=1, max_generics=0, max_where=0, max_deps_bounds=1, max_wrappers=1, max_fn_attrs=2, max_param_attrs=1, pat_depth=1,
-                               deps_kinds=('&',), deps_inner_kinds=('impl', 'path:D'), vis_alts=('inherited', 'pub'), qualifiers=True),
+                   bounds=dict(max_params=1, max_generics=0, max_where=0, max_deps_bounds=1, max_wrappers=1, max_fn_attrs=2 if big else 1, max_param_attrs=1 if big else 0, pat_depth=1 if big else 0,
+                               deps_kinds=('&',), deps_inner_kinds=('impl', 'path:D') if big else ('impl',), vis_alts=('inherited', 'pub') if big else ('pub',), qualifiers=True),
                    fixed=[(r'\.sig\.const$', 'absent'), (r'\.sig\.abi$', 'None'), (r'\.generics\.where$', 'None'), (r'\.generics\.params$', 'len=0'),
                           (r'inputs\[0\]\.pat$', 'deps'), (r'\.lt$', 'None'), (r'\.impl$', 'len=1'), (r'inputs\[0\]$', 'typed'), (r'items\[\d\]\.attrs$', 'len=0')]))
     return sl
 
 
+def trait_slices(tier):
+    big = tier != 'quick'
+    sl = []
+    simple_m = [(r'\.fn\.generics\.params$', 'len=0'), (r'\.fn\.generics\.where$', 'None'), (r'\.fn\.attrs$', 'len=0'), (r'inputs\[\d\]\.attrs$', 'len=0')]
+    simple_t = [(r'trait\.attrs$', 'len=0'), (r'trait\.generics\.params$', 'len=0'), (r'trait\.generics\.where$', 'None'), (r'trait\.colon$', 'None'),
+                (r'trait\.supertraits$', 'len=0'), (r'trait\.vis$', 'pub')]
+    # delegation selectors x async x method shapes (C06 C07 C12 C15)
+    sl.append(dict(name='trait/delegation', mode='trait', max_items=2 if big else 1, assoc_items=False, opts_only=('future_send',),
+                   bounds=dict(max_params=2 if big else 1, max_generics=0, max_where=0, max_deps_bounds=1, max_fn_attrs=1, max_param_attrs=0),
+                   fixed=simple_m + [f for f in simple_t if f[0] != r'trait\.attrs$'] + [(r'\.default$', 'required'), (r'impl_trait\.vis$', 'inherited')]))
+    # the trait definition itself (C09 C13 C18)
+    sl.append(dict(name='trait/definition', mode='trait', max_items=2 if big else 1, delegation=('none', 'ref') if big else ('none',), impl_trait=('none',), opts_only=(),
+                   bounds=dict(max_params=1 if big else 0, max_generics=1 if big else 0, max_where=1 if big else 0, max_deps_bounds=1, max_fn_attrs=1, max_param_attrs=0, qualifiers=True,
+                               vis_alts=('inherited', 'pub', 'pub_crate') if big else ('inherited', 'pub')),
+                   fixed=[(r'\.fn\.generics\.params$', 'len=0'), (r'\.fn\.generics\.where$', 'None'), (r'inputs\[\d\]\.attrs$', 'len=0'), (r'\.pat$', 'ident'),
+                          (r'\.fn\.async$', 'absent'), (r'inputs\[0\]$', '&self')]))
+    # options on traits (C10 C11)
+    sl.append(dict(name='trait/opts', mode='trait', max_items=1, assoc_items=False, delegation=('none', 'ref', 'trait'),
+                   bounds=dict(max_params=1, max_generics=0, max_where=0, max_deps_bounds=1, max_fn_attrs=0, max_param_attrs=0),
+                   fixed=simple_m + simple_t + [(r'\.default$', 'required'), (r'\.pat$', 'ident'), (r'inputs\[0\]$', '&self'), (r'\.fn\.inputs$', 'len=2'),
+                                                 (r'impl_trait\.vis$', 'inherited'), (r'\.fn\.output$', '()')]))
+    for v in ('entrait_export_unimock',):
+        sl.append(dict(name=f'trait/opts/{v}', variant=v, mode='trait', max_items=1, assoc_items=False, delegation=('none',), impl_trait=('none',),
+                       bounds=dict(max_params=0, max_generics=0, max_where=0, max_deps_bounds=1, max_fn_attrs=0, max_param_attrs=0),
+                       fixed=simple_m + simple_t + [(r'\.default$', 'required'), (r'inputs\[0\]$', '&self'), (r'\.fn\.inputs$', 'len=1'), (r'\.fn\.output$', '()')]))
+    # generic traits, supertraits, method generics (C06 C09)
+    sl.append(dict(name='trait/generics', mode='trait', max_items=1, assoc_items=False, delegation=('none', 'ref', 'trait'), opts_only=(),
+                   bounds=dict(max_params=1, max_generics=2 if big else 1, max_where=1, max_deps_bounds=1, max_fn_attrs=0, max_param_attrs=0),
+                   fixed=[(r'trait\.attrs$', 'len=0'), (r'trait\.vis$', 'pub'), (r'\.default$', 'required'), (r'\.pat$', 'ident'), (r'inputs\[0\]$', '&self'),
+                          (r'inputs\[\d\]\.attrs$', 'len=0'), (r'\.fn\.attrs$', 'len=0'), (r'impl_trait\.vis$', 'inherited'), (r'\.fn\.async$', 'absent'),
+                          (r'\.fn\.output$', '()'), (r'\.fn\.generics\.where$', 'None')]))
+    return sl
+
+
 OTHER_FOR = {
-    'C01': ['mod/items'], 'C02': ['mod/items', 'mod/visibility', 'impl/items', 'impl/attrs-async'], 'C03': ['mod/items', 'impl/items'],
-    'C04': ['mod/items', 'impl/items'], 'C07': ['impl/items', 'impl/attrs-async'], 'C08': ['mod/items', 'mod/visibility', 'impl/items'],
-    'C10': ['mod/attrs-async-opts'], 'C11': ['mod/attrs-async-opts'], 'C12': ['mod/attrs-async-opts', 'impl/attrs-async'],
-    'C13': ['mod/visibility', 'mod/items'], 'C14': ['mod/attrs-async-opts', 'impl/items'], 'C15': ['mod/items', 'impl/items', 'impl/attrs-async', 'mod/attrs-async-opts'],
-    'C16': ['impl/attrs-async'], 'C18': ['mod/attrs-async-opts', 'impl/attrs-async', 'impl/items'], 'C19': ['mod/attrs-async-opts', 'impl/items', 'impl/attrs-async'],
-    'C20': ['mod/items', 'impl/items'],
+    'C01': ['mod/items'],
+    'C02': ['mod/items', 'mod/visibility', 'impl/items', 'impl/attrs-async'],
+    'C03': ['mod/items', 'impl/items'],
+    'C04': ['mod/items', 'impl/items', 'mod/attrs-async-opts'],
+    'C06': ['trait/delegation', 'trait/generics', 'trait/opts'],
+    'C07': ['impl/items', 'impl/attrs-async', 'trait/delegation', 'trait/generics'],
+    'C08': ['mod/items', 'mod/visibility', 'impl/items'],
+    'C09': ['trait/definition', 'trait/generics', 'trait/delegation'],
+    'C10': ['mod/attrs-async-opts', 'trait/opts'],
+    'C11': ['mod/attrs-async-opts', 'trait/opts'],
+    'C12': ['mod/attrs-async-opts', 'impl/attrs-async', 'trait/delegation'],
+    'C13': ['mod/visibility', 'mod/items', 'trait/delegation', 'trait/definition'],
+    'C14': ['mod/attrs-async-opts', 'impl/items', 'trait/delegation'],
+    'C15': ['mod/items', 'impl/items', 'impl/attrs-async', 'mod/attrs-async-opts', 'trait/delegation', 'trait/definition', 'trait/opts'],
+    'C16': ['impl/attrs-async'],
+    'C18': ['mod/attrs-async-opts', 'impl/attrs-async', 'impl/items', 'trait/definition', 'trait/delegation'],
+    'C19': ['mod/attrs-async-opts', 'impl/items', 'impl/attrs-async', 'trait/delegation', 'trait/opts', 'trait/generics'],
+    'C20': ['mod/items', 'impl/items', 'trait/delegation'],
 }
 
 
 def all_slices(tier):
-    return fn_slices(tier) + mod_slices(tier) + impl_slices(tier)
+    return fn_slices(tier) + mod_slices(tier) + impl_slices(tier) + trait_slices(tier)
